@@ -28,8 +28,8 @@ TrClean == /\ IsEvent("Clean")
                 /\ CleanWith(ToSet(e.cdel), ToSet(e.csd), ToSet(e.ndel))
                 /\ cbefore' = e.cmb            \* reported usage == specified accounting
                 /\ nbefore' = e.nmb
-                /\ (ToSet(e.cdel) = AlgoContent.del /\ ToSet(e.csd) = AlgoContent.sd /\ ToSet(e.ndel) = AlgoNetwork(ToSet(e.cdel)))
-                     \/ TLCSet(100000 + tid, 1)
+                /\ IF ToSet(e.cdel) = AlgoContent.del /\ ToSet(e.csd) = AlgoContent.sd /\ ToSet(e.ndel) = AlgoNetwork(ToSet(e.cdel))
+                   THEN TRUE ELSE TLCSet(100000 + tid, 1)
 TrAdd == /\ IsEvent("Add") /\ AddBlob(T.ev[l].blob)
 TNext == TrClean \/ TrAdd
 TSpec == TInit /\ [][TNext]_tvars
